@@ -8,6 +8,11 @@ HERE = os.path.dirname(os.path.dirname(os.path.abspath(__file__)))
 
 # property -> (category, technique, level text, level note, design ref)
 CHECKS = {
+    "C01": ("exploration", "reference-model monitor: independent PDP-11 decoder over the statement trace of enumerated instruction forms",
+            "Enumeration of mnemonic x operand-form x inline-value spaces (exhaustive for the per-operand form space and inline fields; sampled "
+            "partners for two-operand pairs in quick, full 68x68 in thorough); each emitted statement is decoded by an independent decoder "
+            "written from the handbook and compared with the abstract instruction, including emitted length.",
+            "Trusts the handbook-derived decoder in vlib/pdp11_ref.py; ~25 non-DEC mnemonics are compared with a frozen transcription only.", "3 C01"),
     "C13": ("exploration", "independent container readers (bin, RIFF, BK tape demodulator) over outputs of the real format functions and of shim-observed CLI runs",
             "Contract-style wrappers feed the real file_formats functions with synthetic (base, image, name) and decode what they return with "
             "independent readers; CLI runs are observed through an audit-hook/snapshot shim so that the set of files written is compared with "
